@@ -3,7 +3,12 @@
 Tie: workspaces under git in every state (clean, modified, staged, untracked, ignored, no repository, nested repository,
 work tree root above the files, .git as a file) x {content fix, move} x spellings of the arguments (absolute, relative, from a
 sub-directory, several arguments) x how the workspace is reached (real path; through a symbolic link that is the repository /
-the argument itself; through a link that is a parent directory; through a link inside the work tree), run through the real
+the argument itself; through a link that is a parent directory; through a link inside the work tree);
+command lines with TWO OR THREE arguments in every order, each in repository A (pol, pol/sub), in another repository B (pol2,
+zeta) or in no repository (pol-draft, drafts) -- names that share string prefixes and names that do not --, every place with
+its own project-root declaration (none, .manifest, .regal/, .regal.yaml, project.roots, .regal/ above the argument) and its
+own state; relative arguments that lead out of the repository of the working directory (cd pol && regal fix ../pol-draft);
+files inside git submodules (absorbed: .git file; not absorbed: .git directory, predicate only) -- all run through the real
 binary WITHOUT --force.
   * correspondence: the model (find_git_repo over the tree + the gate over go-git's status keys, obtained through regal's own
     GetChangedFiles in an overlay test) must predict the verdict and the tree after the run;
@@ -76,6 +81,8 @@ def predicate(r):
                     st = 'no-repository'
                 elif st is None:
                     st = 'outside-repository' if not any(c13.contains(d, rel) for d in ws['git']['repo_dirs']) else 'clean?'
+                if not ws.get('symlinks') and any(c13.contains(d, rel) for d in ((ws.get('git') or {}).get('submodules') or {})):
+                    st = '%s/inside-submodule' % st
                 bad.append(('changed-unrestorable-file', st))
     return bad
 
